@@ -55,7 +55,7 @@ CandChoices(n) ==
      THEN {<<StateSpace(S.nt, MinState(SpuriousStates(n)))>> \o ExactCover(n)} ELSE {})
 
 PlainTag(tag) == tag[1] \in {"exp", "bfs", "dfs", "tgt", "aseeds", "cand", "seeds", "sets", "reclaim"}
-                 \/ (tag[1] = "min" /\ ~tag[4])
+                 \/ (tag[1] = "min" /\ ~tag[4]) \/ (tag[1] = "block" /\ ~tag[4])
 Begin(f, tag) == /\ fr' = f
                  /\ calls' = calls + 1
                  /\ hist' = Append(hist, tag)
@@ -77,6 +77,8 @@ NewCall ==
        \/ "min" \in Ops /\ \E n \in Ids(D), z \in Lims, sk \in BOOLEAN :
               Begin(MinBegin(n, z, sk, MtsOrder(D.nodes[n].space)), <<"min", n, z, sk>>)
        \/ "aseeds" \in Ops /\ \E z \in Lims : Begin(ASeedsBegin(z, MtsOrder(D.nodes[1].space)), <<"aseeds", z>>)
+       \/ "block" \in Ops /\ calls = 0 /\ \E mz \in BOOLEAN, os \in BOOLEAN, z \in Lims :
+              Begin(BlockBegin(mz, z, os, FALSE), <<"block", mz, z, os>>)
        \/ "skipmin" \in Ops /\ \E n \in Ids(D) :
               LET r == SkipToMinimal(S, D, n, MtsOrder(D.nodes[n].space), cfg.failat = 1) IN Atomic(r[1], r[2], <<"skipmin", n>>)
        \/ "skiprem" \in Ops /\ IF cfg.failat = 1 THEN Atomic(D, "error", <<"skiprem">>)
@@ -91,7 +93,7 @@ NewCall ==
 
 Micro ==
     /\ ~fr.done
-    /\ \E b \in ASeedsOracleChoices(S, D, fr) :
+    /\ \E b \in OracleChoices(S, D, fr) :
           LET r == StepFrame(S, cfg, D, fr, b) IN D' = r[1] /\ fr' = r[2]
     /\ UNCHANGED <<S, calls, hist, cfg, plain>>
 
@@ -120,14 +122,14 @@ Inv_FullExact == (OnlyPlain /\ (Completed("bfs") \/ Completed("dfs")) /\ fr.star
                  => FullExact(S, D)
 \* C03: completed strategies from the root (after any prefix) have exactly the minimal trap spaces
 Inv_MinExact == ( \/ ((Completed("bfs") /\ fr.limlvl = Unl) \/ (Completed("dfs") /\ fr.limstk = Unl) \/ Completed("min")) /\ fr.start = 1
-                  \/ Completed("aseeds")
+                  \/ Completed("aseeds") \/ Completed("block")
                   \/ (fr.done /\ fr.op = "skiprem" /\ fr.ret # "error") )
                 => MinExact(S, D)
 \* C15: True means completed; a size-limited False means an unexpanded node remains
 Inv_RetFalse == (fr.done /\ fr.op \in {"bfs", "dfs", "min", "aseeds", "tgt"} /\ fr.ret = "false"
                    /\ (fr.op = "bfs" => fr.limlvl = Unl) /\ (fr.op = "dfs" => fr.limstk = Unl))
                 => \E n \in Ids(D) : ~D.nodes[n].expanded
-Inv_ASeedsSound == fr.op = "aseeds" => ~fr.unsound
+Inv_ASeedsSound == fr.op \in {"aseeds", "block"} => ~fr.unsound
 \* C01/C05 at the design level: when all seeds are known on a completely expanded diagram
 AllExpanded == \A n \in Ids(D) : D.nodes[n].expanded
 Inv_Seeds == (fr.done /\ AllExpanded /\ AllSeedsKnown(D, Ids(D)))
